@@ -86,15 +86,16 @@ func poolObligations(c *Checker, pfx string) {
 				// header state
 				hdr, _ := o.St.mem[objByName(o, b.obj())].(StructV)
 				var data SliceV
-				if fi != nil && len(hdr.F) == 3 {
+				if fi != nil && len(hdr.F) >= 3 {
 					data, _ = hdr.F[fi.data].(SliceV)
 				}
 				wantLen := specMul(chn, ln)
 				okLen := data.Stor != nil && data.Stor.Name == b.stor() && eqInt(data.Off, zeroT()) && eqInt(data.Len, wantLen)
 				c.expect(okLen, r("1"), "PoolAllocator.Put/length", c.pos(fn.Pos()), "len(data) restored to Channels*Length",
 					fmt.Sprintf("pooled buffer has len(data) = %s, expected alloc.Channels*alloc.Length (a shortened or extended buffer is handed out again as is)", pretty(canonOrNil(data.Len))))
-				okCap := data.Stor != nil && eqInt(data.Cap, b.capT())
-				c.expect(okCap, r("1"), "PoolAllocator.Put/capacity", c.pos(fn.Pos()), "cap(data) unchanged (= Capacity*Channels by the guard)", "pooled buffer has cap(data) = "+pretty(canonOrNil(data.Cap)))
+				guardEq := Cond{Kind: CEQ0, P: normSign(normInt(b.capT()).Sub(normInt(specMul(mkAtom(p+".alloc.Capacity", intT), chn))))}
+				okCap := data.Stor != nil && eqInt(data.Cap, b.capT()) && hasFact(put.Facts, guardEq)
+				c.expect(okCap, r("1"), "PoolAllocator.Put/capacity", c.pos(fn.Pos()), "cap(data) unchanged and equal to Capacity*Channels by the guard", "pooled buffer has cap(data) = "+pretty(canonOrNil(data.Cap))+", not established equal to alloc.Capacity*alloc.Channels on the path to sync.Pool.Put")
 				// zeroed region must cover [0, cap)
 				covered := false
 				var other []*Effect
@@ -254,7 +255,7 @@ func poolObligations(c *Checker, pfx string) {
 						}
 						hdr, _ := o.St.mem[pv.Obj].(StructV)
 						fi := bufferFields(pv.Obj.Typ)
-						if fi == nil || len(hdr.F) != 3 {
+						if fi == nil || len(hdr.F) < 3 {
 							okN, d = false, "New does not return a Buffer"
 							break
 						}
@@ -503,6 +504,25 @@ func checkC12(c *Checker) {
 				}
 			}
 		}
+	}
+	// premises: the per-operation summaries the induction composes (each operation is one Go slice primitive
+	// on the view's own header). They are the obligations of C02-C04, re-evaluated here so that a change that
+	// breaks the model at one operation is reported under C12 as well.
+	c.rule("C12-P", "premises of the compositional argument: the C02 (Slice), C03 (Append) and C04 (AppendSample) summaries hold", 10)
+	sub := newChecker(c.Prop, c.Tier, c.Seed, c.verifDir)
+	sub.W = c.W
+	sub.sums = c.sums
+	checkC02(sub)
+	checkC03(sub)
+	checkC04(sub)
+	for _, o := range sub.Obligs {
+		if strings.HasPrefix(o.Rule, "C02-R3") {
+			continue // accessor forms are not part of the view model
+		}
+		c.add("C12-P", o.Rule+"/"+o.Instance, o.Pos, o.Verdict, o.Detail, o.Witness)
+	}
+	for f := range sub.Funcs {
+		c.Funcs[f] = true
 	}
 	c.Extra["functions_with_header_stores"] = nHdr
 	c.Extra["functions_with_sample_writes"] = nElem
